@@ -37,6 +37,7 @@ def dispatch (op : String) (j : Json) : R Json :=
   | "hist_occl" => Ops.histOccl j
   | "hist_lime" => Ops.histLime j
   | "hist_cache" => Ops.histCache j
+  | "hist_override" => Ops.histOverride j
   | "hist_gs" => Ops.histGs j
   | "obj_run" => Ops.objRun j
   | "obj_compile" => Ops.objCompile j
